@@ -154,6 +154,53 @@ def compare_shapes(ctx, text, ast, label, case):
 
 
 FIXED_SRC = [
+    # module imported under another name (recorded finding)
+    """import collections as coll
+import enum as en
+class Color(en.Enum):
+  RED = 1
+counts = coll.defaultdict(int)
+""",
+    # classes whose only content is (empty) __slots__; generic class with a
+    # nested class that has classmethods
+    """class Marker:
+  __slots__ = ()
+class Pt:
+  __slots__ = ("x", "y")
+  def __init__(self):
+    self.x = 1
+    self.y = "s"
+class Both:
+  __slots__ = ()
+  z = 1
+m = Marker()
+""",
+    """from typing import Generic, TypeVar
+T = TypeVar("T")
+class Registry(Generic[T]):
+  def __init__(self, item: T):
+    self.item = item
+  class Entry:
+    def __init__(self, key: str):
+      self.key = key
+    @classmethod
+    def parse(cls, text: str):
+      return cls(text)
+    @staticmethod
+    def blank():
+      return Registry.Entry("")
+    def clone(self):
+      return Registry.Entry(self.key)
+  @classmethod
+  def of(cls, item: T) -> "Registry[T]":
+    return cls(item)
+class Plain:
+  class Entry:
+    @classmethod
+    def parse(cls, text: str):
+      return cls()
+r = Registry.of(1)
+""",
     # a stub that refers to a nested class by its dotted name: printing it
     # calls Lookup on the enclosing class (fix d6f6e21: that used to make the
     # class unequal to its re-read twin)
